@@ -206,7 +206,8 @@ def accuracy(chk, P, f, fname):
             else:
                 # unweighted: allowed only for the quaternion errors (documented: "We don't weight the quaternion errors")
                 okq = fname == "projectQ" and vec in decls and bool(sx_find(decls[vec].get("init") or [], lambda y: y[0] == "call" and y[1].endswith("::" + spec["err"]))) and \
-                    bool(sx_find(decls[vec]["init"], lambda y: y[0] == "var" and y[1] == "mQuats"))
+                    bool(sx_find(decls[vec]["init"], lambda y: y[0] == "var" and y[1] in decls and
+                                 bool(sx_find(decls[y[1]].get("init") or [], lambda z: z[0] == "call" and z[1].endswith("::getNumQuaternionsInUse")))))
                 chk.judge(okq, "ACCURACY", "%s:%s#%d:unweighted-only-quaternion-errors" % (fname, v, dn), site,
                           "an unweighted norm is taken only of the quaternion segment of qerr (vector %s)" % vec)
 
